@@ -32,6 +32,15 @@ def _neutral(lit: str) -> bool:
     return lit.startswith(("!(", "(self._state ==", "(opcode in {", "(self._frame_opcode in {", "(EXCEPT(")) or lit in ("(self._compress)",)
 
 
+def _has_unit(x, u) -> bool:
+    """A required unit literal, or any of a tuple of equivalent spellings / admissible strengthenings."""
+    return x in u if isinstance(x, str) else any(a in u for a in x)
+
+
+def _fmt_units(units):
+    return [x if isinstance(x, str) else x[0] for x in units]
+
+
 def need(chk, rid, what, fn, raises, code, units=(), clauses=(), allow=()):
     """A WebSocketError(code) raise exists whose PC has all the unit literals and disjunctive clauses - and nothing else that narrows
     it: every further positive literal must be neutral (dispatch) or listed in `allow` with a reason at the call site."""
@@ -39,23 +48,24 @@ def need(chk, rid, what, fn, raises, code, units=(), clauses=(), allow=()):
     for n, c, cl, u, d in raises:
         if c != f"WSCloseCode.{code}":
             continue
-        if all(x in u for x in units) and all(any(set(cx) == set(dx) for dx in d) for cx in clauses):
-            extra = sorted(x for x in u if x not in units and not _neutral(x) and x not in allow)
+        if all(_has_unit(x, u) for x in units) and all(any(set(cx) == set(dx) for dx in d) for cx in clauses):
+            flat = {a for x in units for a in ((x,) if isinstance(x, str) else x)}
+            extra = sorted(x for x in u if x not in flat and not _neutral(x) and x not in allow)
             if extra:
                 weak = weak or (n, extra)
                 continue
-            chk.ok(f"C12.rej.{rid}", n, f"{what}: WebSocketError({code}) under " + " & ".join(list(units) + ["[" + " | ".join(sorted(c2)) + "]" for c2 in clauses]))
+            chk.ok(f"C12.rej.{rid}", n, f"{what}: WebSocketError({code}) under " + " & ".join(_fmt_units(units) + ["[" + " | ".join(sorted(c2)) + "]" for c2 in clauses]))
             return n
     if weak:
         chk.violation(f"C12.rej.{rid}", weak[0], K.short(weak[0], 60), "rejection not conditional on " + " & ".join(weak[1]),
                       f"{what}: the rejection fires only under the additional condition {' & '.join(weak[1])}; frames that violate the rule outside that condition are accepted")
         return None
     # same condition with a different code?
-    other = [(n, c) for n, c, cl, u, d in raises if all(x in u for x in units) and all(any(set(cx) == set(dx) for dx in d) for cx in clauses)]
+    other = [(n, c) for n, c, cl, u, d in raises if all(_has_unit(x, u) for x in units) and all(any(set(cx) == set(dx) for dx in d) for cx in clauses)]
     if other:
         chk.violation(f"C12.rej.{rid}", other[0][0], K.short(other[0][0], 60), f"close code WSCloseCode.{code}", f"{what}: the violation is reported with {other[0][1]} instead of {code}")
     else:
-        chk.violation(f"C12.rej.{rid}", fn, f"rejection[{what}]", " & ".join(list(units) + ["[" + " | ".join(sorted(c2)) + "]" for c2 in clauses]),
+        chk.violation(f"C12.rej.{rid}", fn, f"rejection[{what}]", " & ".join(_fmt_units(units) + ["[" + " | ".join(sorted(c2)) + "]" for c2 in clauses]),
                       f"{what}: required rejection with close code {code} not found (the frame would be delivered or mis-framed instead of ending the stream)")
     return None
 
@@ -98,7 +108,21 @@ def run(chk):
     need(chk, "contrsv1", "RSV1 on a continuation fragment", fd, R1, "PROTOCOL_ERROR", units=["(rsv1)", "!(opcode > 7)", "!(self._frame_fin)", "!(self._compressed == COMPRESSED_NOT_SET)"])
     need(chk, "len64", "64-bit length beyond the representable maximum", fd, R1, "MESSAGE_TOO_BIG", units=["(frame_len > MAX_PAYLOAD_LEN)"], allow=("(len_flag > 126)",))  # the 64-bit length form
     capn = need(chk, "cap", "message size cap before buffering (counting the partial message)", fd, R1, "MESSAGE_TOO_BIG",
-                units=["!(self._payload_bytes_to_read < self._max_msg_size - partial_len)", "(self._max_msg_size)", "(self._frame_opcode in {OP_CODE_TEXT, OP_CODE_BINARY, OP_CODE_CONTINUATION})"])
+                units=[("(self._payload_bytes_to_read > self._max_msg_size - partial_len)", "!(self._payload_bytes_to_read <= self._max_msg_size - partial_len)",
+                        "!(self._payload_bytes_to_read < self._max_msg_size - partial_len)"),  # `>` is what the limit says; `>=` only refuses more
+                       "(self._max_msg_size)", "(self._frame_opcode in {OP_CODE_TEXT, OP_CODE_BINARY, OP_CODE_CONTINUATION})"])
+    # the limit means the same thing on both paths: a message of exactly max_msg_size passes the post-inflate test (`>`), so the early test
+    # of the announced length must let it pass too - otherwise whether a message is delivered depends on whether it was compressed
+    if capn is not None:
+        cu = {str(l) for c_ in PC.pc(capn, raw=True) if len(c_) == 1 for l in c_}
+        strict_early = "!(self._payload_bytes_to_read < self._max_msg_size - partial_len)" in cu
+        infl = [u for n_, c_, cl_, u, d_ in R2 if c_ == "WSCloseCode.MESSAGE_TOO_BIG" and any("len(payload_merged)" in x for x in u)]
+        strict_late = bool(infl) and any("!(len(payload_merged) < self._max_msg_size)" in u for u in infl)
+        if strict_early == strict_late:
+            chk.ok("C12.rej.cap", capn, "the announced-length test and the post-inflate test draw the limit at the same size")
+        else:
+            chk.violation("C12.rej.cap", capn, K.short(capn, 60), "self._payload_bytes_to_read > self._max_msg_size - partial_len",
+                          "the early test refuses a message of exactly max_msg_size bytes while the post-inflate test accepts it: the same message round-trips with permessage-deflate and is refused with 1009 (`Message size N exceeds limit N`) without")
     pl = norm.fn_defs(fd.node).defs.get("partial_len", [])
     if len(pl) == 1 and norm.raw(pl[0][1]) == "len(self._partial)":
         chk.ok("C12.rej.cap", pl[0][0], "the cap accounts for the bytes of the message received so far (len(self._partial))")
